@@ -125,17 +125,48 @@ def wedge_oracle(line, res):
     return None
 
 
+def c01_up_gen(rng, tier):
+    out = []
+    scs = ["udp", "tcp", "tcp+pipeline", "tls", "tls+pipeline", "http", "https", "quic"]
+    modes = ["garbage", "empty", "short", "counts", "ptrloop", "status", "hdr", "bigrdlen"]
+    k = 0
+    for sc in scs:
+        ms = modes
+        for m in ms:
+            out.append("u%d sc=%s mode=%s" % (k, sc, m))
+            k += 1
+    return out
+
+
+def up_oracle(line, res):
+    f = gens.fields(res)
+    if not res.startswith("first="):
+        return None
+    if f.get("first") not in ("err", "reply"):
+        return "a malformed upstream reply did not simply fail the exchange: " + res
+    if f.get("late") == "1":
+        return "exchange against a garbage-sending upstream outlived its deadline: " + res
+    if f.get("second") != "reply":
+        return "after a malformed upstream reply a following exchange no longer succeeds: " + res
+    return None
+
+
 PROPS["C01"] = dict(
     kinds=[dict(name="decode", gen=c01_decode_gen, oracle=decode_oracle, shards=16,
                 nontrivial=lambda l, r: True, timeout=1500),
            dict(name="wedge", gen=c01_wedge_gen, oracle=wedge_oracle, model=False,
-                nontrivial=lambda l, r: "st=ok" in r, timeout=900)],
+                nontrivial=lambda l, r: "st=ok" in r, timeout=900),
+           dict(name="upgarbage", gen=c01_up_gen, oracle=up_oracle, model=False,
+                nontrivial=lambda l, r: "second=reply" in r, timeout=900,
+                classify=lambda l, r: gens.fields(l).get("sc", "?") + "/" + gens.fields(r).get("first", "?"))],
     rule="decode: boundary catalogue (hop 10/11, label 63/64, name 254/255/256, pointer loops, reserved prefixes, "
          "RDLENGTH +-1, every truncation of a reference message, lying counts) + grammar-generated messages (all RR types, "
          "incoming compression) + mutated stream (truncation, byte flips, insertions, random bytes); distinct = distinct bytes; "
          "wedge: arbitrary/malformed bytes sent to a real listener (udp, tcp, gnet, DoH GET/POST on net/http and fasthttp) of "
          "the in-process router, then a valid query on the same listener must be answered exactly once (no model side: the "
-         "oracle is the property itself)",
+         "oracle is the property itself); upgarbage: a fake upstream of every transport (udp, tcp, pipelined, DoT, DoH over "
+         "http/https(h2), DoQ) replies malformed data (garbage, empty, truncated, lying counts, pointer loop, HTTP 500, "
+         "RDLENGTH beyond the message): the real exchange must fail cleanly within its deadline and the next exchange succeed",
     assumptions=["Go slices index like the checked primitives of Base/Prelude.v"],
     trusted=CODEC_TRUST,
 )
